@@ -165,7 +165,9 @@ fn attempt<T: Clone>(reg: &mut T, class: &str, f: impl FnOnce(&mut T)) {
     let backup = reg.clone();
     let r = panic::catch_unwind(AssertUnwindSafe(|| f(reg)));
     if let Err(e) = r {
-        if panic_class(&*e) == class {
+        let c = panic_class(&*e);
+        // `custom:`: a message the crate wrote itself whose wording the table does not know (see wire::classify)
+        if c == class || c.starts_with("custom:") {
             *reg = backup;
         } else {
             panic::resume_unwind(e);
